@@ -64,12 +64,13 @@ package service
 // current checkpoint; operations are stored BEFORE the datatype document that acknowledges them.
 //@ func (*PushPullHandler).commitToMongoDB
 //@   mode wrap
-//@   props C06 C05 C08
+//@   props C06 C05 C08 C11
 //@   requires handlerWF(its) && its.currentCP != nil && its.datatypeDoc != nil && its.resPushPullPack != nil
 //@   requires[log-invariant] its.currentCP.Sseq <= G.stored + len(its.pushingOperations)
 //@   requires[a-writer-stands-at-the-new-end] !its.isReadOnly ==> its.currentCP.Sseq == G.stored + len(its.pushingOperations)
 //@   requires[a-reader-pushes-nothing] its.isReadOnly ==> len(its.pushingOperations) == 0 && its.datatypeDoc.Sseq.End <= G.stored
 //@   requires[lock-held] its.lock != nil && sel(G.held, its.lock)
+//@   ensures[a-commit-deletes-nothing] G.delCount == old(G.delCount)
 //@   ensures[recorded-end-is-the-log-length] result == nil && old(its.datatypeDoc.Sseq.End == G.stored) ==> its.datatypeDoc.Sseq.End == G.stored
 //@   ensures[reply-checkpoint]  its.resPushPullPack.CheckPoint == its.currentCP
 //@   ensures[checkpoint-untouched] its.currentCP.Sseq == old(its.currentCP.Sseq) && its.currentCP.Cseq == old(its.currentCP.Cseq)
